@@ -15,7 +15,7 @@ def gen_script(rng, maxlen=7, cancel=False):
     par = rng.choice([1, 2, 2, 3, 4, 8])
     n = rng.randrange(0, maxlen + 1)
     xs = rng.sample(range(1, 40), n)
-    mode = rng.choice(["pure", "try", "lift"]) if st in ("Map", "FMap") else "pure"
+    mode = rng.choice(["pure", "try", "lift"]) if st in ("Map", "FMap") else (rng.choice(["pure", "pure", "lift", "try"]) if st == "ForEach" else "pure")
     if st == "FMap" and mode == "pure":
         mode = "lift"
     # Lift with several workers: only the no-leak / no-panic / sub-multiset guarantees are claimed (C09 says nothing
@@ -49,14 +49,14 @@ def evaluate(script, tr):
     cfg = tr.cfg
     st = cfg["stage"]
     key = {"stage": st, "pkg": "fork"}
-    fail = set(int(x) for x in cfg.get("fail", "").split(",") if x) if cfg["mode"] == "try" else set()
+    fail = set(int(x) for x in cfg.get("fail", "").split(",") if x) if cfg["mode"] == "try" and st in ("Map", "FMap") else set()
     xs = tr.sent.get(0, [])
     good = [x for x in xs if x not in fail]
     want = C05.spec(dict(cfg), good)
     vs = []
     done = all(k in tr.closed for k in OUTS[st])
     cancelled = tr.cancel_at is not None
-    liftfail = cfg["mode"] == "lift" and any(x in set(int(y) for y in cfg.get("fail", "").split(",") if y) for x in xs)
+    liftfail = cfg["mode"] == "lift" and st in ("Map", "FMap") and any(x in set(int(y) for y in cfg.get("fail", "").split(",") if y) for x in xs)
     if liftfail:
         # fail-fast with failures: treat like a cancelled run (sub-multiset, closure and no-leak checks only)
         cancelled_for_results = True
@@ -104,6 +104,12 @@ def evaluate(script, tr):
             if cfg.get("gated") == "1" and st in HASFN and any(x not in released for x in xs):
                 vs.append(vlib.Violation("impl", "fork.%s: output closed while a user-function call was still running (worker not finished)" % st, case=script, key=key))
                 break
+    # closure (C06's guarantee, claimed for the fork stages too): the input was closed, every gated call released and the
+    # outputs drained by the tail of the script, nobody cancelled -> every output is closed
+    if nclosed_in and not cancelled and not done and tr.steps and tr.steps[-1][0] == "z":
+        still = [k for k in OUTS[st] if k not in tr.closed]
+        vs.append(vlib.Violation("impl", "fork.%s par=%s: output(s) %s not closed after the input was closed, every call released and the outputs drained" % (st, cfg["par"], still),
+                                 case=script, expected="closed", got="open", key=dict(key, **{"class": "not-closed"})))
     for pos, n in tr.census:
         if nclosed_in and cancelled and pos > tr.cancel_at and n != 0 and cfg.get("gated") == "1":
             # with gates, every call has been released before this census (tail of the script)
